@@ -15,9 +15,12 @@ def main():
     args = sys.argv[1:]
     in_repo = '--in-repo' in args
     tier = 'quick'
+    results_path = '/verif/seeded/RESULTS.json'
+    if '--results' in args:
+        results_path = args[args.index('--results') + 1]
     if '--tier' in args:
         tier = args[args.index('--tier') + 1]
-    dirs = [a for a in args if not a.startswith('--') and a != tier] or sorted(glob.glob('/verif/seeded/*/'))
+    dirs = [a for a in args if not a.startswith('--') and a != tier and a != results_path] or sorted(glob.glob('/verif/seeded/*/'))
     results = []
     for d in dirs:
         d = os.path.abspath(d.rstrip('/'))
@@ -68,13 +71,13 @@ def main():
             sh(f'git -C /repo worktree remove --force {root}')
     old = {}
     try:
-        for r in json.load(open('/verif/seeded/RESULTS.json')):
+        for r in json.load(open(results_path)):
             old[r['seed']] = r
     except Exception:
         pass
     for r in results:
         old[r['seed']] = r
     os.makedirs('/verif/seeded', exist_ok=True)
-    json.dump(sorted(old.values(), key=lambda r: r['seed']), open('/verif/seeded/RESULTS.json', 'w'), indent=1)
+    json.dump(sorted(old.values(), key=lambda r: r['seed']), open(results_path, 'w'), indent=1)
 
 main()
